@@ -2,6 +2,26 @@ module verifharness
 
 go 1.17
 
-require github.com/gauss-project/aurorafs v0.0.0
+require (
+	github.com/gauss-project/aurorafs v0.0.0
+	github.com/sirupsen/logrus v1.8.1
+)
+
+require (
+	github.com/Knetic/govaluate v3.0.1-0.20171022003610-9aa49832a739+incompatible // indirect
+	github.com/beorn7/perks v1.0.1 // indirect
+	github.com/casbin/casbin/v2 v2.35.0 // indirect
+	github.com/cespare/xxhash/v2 v2.1.2 // indirect
+	github.com/golang/protobuf v1.5.2 // indirect
+	github.com/matttproud/golang_protobuf_extensions v1.0.1 // indirect
+	github.com/prometheus/client_golang v1.12.1 // indirect
+	github.com/prometheus/client_model v0.2.0 // indirect
+	github.com/prometheus/common v0.33.0 // indirect
+	github.com/prometheus/procfs v0.7.3 // indirect
+	golang.org/x/crypto v0.0.0-20220411220226-7b82a4e95df4 // indirect
+	golang.org/x/sys v0.0.0-20220412211240-33da011f77ad // indirect
+	google.golang.org/protobuf v1.28.0 // indirect
+	resenje.org/web v0.4.3 // indirect
+)
 
 replace github.com/gauss-project/aurorafs => /repo
